@@ -33,7 +33,7 @@ INSTRS = [None,
           {'spec': {'a': {'mapping': 'over-scalar'}}}, {'spec': {'l': {'mapping': 'over-list'}}}, {'status': {'s': 1}},
           {'spec': {'newmap': {'with': None, 'kept': 1}}},
           {'spec': {'a': True}}, {'spec': {'b': {'c': 2.5}}}, {'spec': {'t': False, 'zero': 0}}]       # type-only / falsy changes: 1 -> true is a change
-OUTCOMES = ['ok', 'adm', 'perm', 'temp', 'exc']
+OUTCOMES = ['ok', 'adm', 'perm', 'temp', 'exc', 'adm2', 'perm2', 'temp2']      # ...2: an instance of a SUBCLASS of that error class
 
 
 def build_records(quick: bool, seed: int) -> list[dict[str, Any]]:
@@ -47,7 +47,7 @@ def build_records(quick: bool, seed: int) -> list[dict[str, Any]]:
     cases = []
     # systematic: one or two handlers, every outcome pair, a few instructions
     for (t1, o1), (t2, o2) in itertools.product(itertools.product(['validating', 'mutating'], OUTCOMES), repeat=2):
-        cases.append([dict(typ=t1, outcome=o1, instr=INSTRS[1] if t1 == 'mutating' else None, warn='w1' if o1 in ('ok', 'perm') else ''),
+        cases.append([dict(typ=t1, outcome=o1, instr=INSTRS[1] if t1 == 'mutating' else None, warn='w1' if o1 in ('ok', 'perm', 'perm2') else ''),
                       dict(typ=t2, outcome=o2, instr=INSTRS[4] if t2 == 'mutating' else None, warn='w2' if o2 != 'temp' else '')])
     # every instruction alone and in pairs (later overrides earlier), with and without transformations
     for i1 in INSTRS[1:]:
@@ -69,7 +69,7 @@ def build_records(quick: bool, seed: int) -> list[dict[str, Any]]:
         for n, h in enumerate(handlers):
             hid = f'h{n + 1}'
             spec = dict(id=hid, typ=h['typ'], ops=list(h.get('ops') or []), sub=h.get('sub') or '', outcome=h['outcome'], flt=h.get('flt', ''),
-                        msg=f'msg-{hid}', code=400 + n + 1 if h['outcome'] == 'adm' else 0, warn=h.get('warn', ''),
+                        msg=f'msg-{hid}', code=400 + n + 1 if h['outcome'] in ('adm', 'adm2') else 0, warn=h.get('warn', ''),
                         instr=enc(h['instr']) if h.get('instr') is not None else {'t': 'n'}, fns=list(h.get('fns', [])))
             hs.append(spec)
 
@@ -95,6 +95,9 @@ def build_records(quick: bool, seed: int) -> list[dict[str, Any]]:
                                 if 'finalizers' in b.get('metadata', {}) and not fins: del b['metadata']['finalizers']
                             patch.fns.append(delfin)
                     o = spec['outcome']
+                    if o == 'adm2': raise type('Forbidden', (kopf.AdmissionError,), {})(spec['msg'], code=spec['code'])
+                    if o == 'perm2': raise type('Fatal', (kopf.PermanentError,), {})(spec['msg'])
+                    if o == 'temp2': raise type('Later', (kopf.TemporaryError,), {})(spec['msg'], delay=1)
                     if o == 'adm': raise kopf.AdmissionError(spec['msg'], code=spec['code'])
                     if o == 'perm': raise kopf.PermanentError(spec['msg'])
                     if o == 'temp': raise kopf.TemporaryError(spec['msg'], delay=1)
